@@ -443,9 +443,7 @@ func (r *Run) verifIntrinsic(st *State, fn *ssa.Function, a []Value, pos token.P
 		if cur == sn.c {
 			return []Value{smt.True}, true, nil
 		}
-		j := smt.Var(r.Eng.Fresh("sk"), 64)
-		idx := smt.Add(sn.s.Off, j)
-		return []Value{smt.Implies(smt.ULt(j, sn.s.Len), smt.Eq(sn.c.Read(idx), cur.Read(idx)))}, true, nil
+		return []Value{r.eqRange(st, sn.c, sn.s.Off, cur, sn.s.Off, sn.s.Len, 0)}, true, nil
 	case "verifBytesEq":
 		// (a, b []byte) bool — positive assertion position only
 		_, ao, al, ac, ok1 := r.bytesOf(st, a[0])
@@ -453,8 +451,10 @@ func (r *Run) verifIntrinsic(st *State, fn *ssa.Function, a []Value, pos token.P
 		if !ok1 || !ok2 {
 			return nil, true, unknownf("verifBytesEq on %T,%T", a[0], a[1])
 		}
-		j := smt.Var(r.Eng.Fresh("sk"), 64)
-		return []Value{smt.And(smt.Eq(al, bl), smt.Implies(smt.ULt(j, al), smt.Eq(ac.Read(smt.Add(ao, j)), bc.Read(smt.Add(bo, j)))))}, true, nil
+		if !r.decide(st, smt.Eq(al, bl)) {
+			return []Value{smt.False}, true, nil
+		}
+		return []Value{r.eqRange(st, ac, ao, bc, bo, al, 0)}, true, nil
 	case "verifRunPending":
 		if len(st.Pending) == 0 {
 			return []Value{smt.False}, true, nil
@@ -502,6 +502,181 @@ func (r *Run) verifIntrinsic(st *State, fn *ssa.Function, a []Value, pos token.P
 		}
 		st.Assume(smt.Eq(v, smt.BVs(vals[0], 64)))
 		return []Value{smt.BVs(vals[0], 64)}, true, nil
+	case "verifIteInt", "verifIteByte", "verifIteBool":
+		c, e0 := termArg(a[0])
+		x, e1 := termArg(a[1])
+		y, e2 := termArg(a[2])
+		if e0 != nil || e1 != nil || e2 != nil {
+			return nil, true, unknownf("verifIte on non-scalars")
+		}
+		return []Value{smt.Ite(c, x, y)}, true, nil
+	case "verifSnapByte":
+		h, err := termArg(a[0])
+		if err != nil || !h.IsConst() {
+			return nil, true, unknownf("snapshot handle must be concrete")
+		}
+		j, err := termArg(a[1])
+		if err != nil {
+			return nil, true, err
+		}
+		sn, ok := st.Ghost[fmt.Sprintf("snap:%d", h.C)].(snapshot)
+		if !ok {
+			return nil, true, unknownf("unknown snapshot")
+		}
+		return []Value{sn.c.Read(smt.Add(sn.s.Off, j))}, true, nil
+	case "verifAll":
+		// (n int, f func(j int) bool) bool: for a fresh j, (0<=j<n) => f(j). Positive position only.
+		n, err := termArg(a[0])
+		if err != nil {
+			return nil, true, err
+		}
+		fv, ok := a[1].(Func)
+		if !ok || fv.Fn == nil {
+			return nil, true, unknownf("verifAll needs a function")
+		}
+		pos0 := smt.SLt(zero64, n)
+		hasPos := r.sat(st, pos0) != smt.Unsat
+		hasNon := !pos0.IsTrue() && r.sat(st, smt.Not(pos0)) != smt.Unsat
+		if !hasPos {
+			return []Value{smt.True}, true, nil
+		}
+		if hasNon {
+			o := st.Fork()
+			o.Assume(smt.Not(pos0))
+			of := o.top()
+			if cv, ok := of.Block.Instrs[of.PC].(ssa.Value); ok {
+				r.set(o, cv, smt.True)
+			}
+			of.PC++
+			r.work = append(r.work, o)
+		}
+		st.Assume(pos0)
+		j := smt.Var(r.Eng.Fresh("sk"), 64)
+		st.Assume(smt.And(smt.SLe(zero64, j), smt.SLt(j, n)))
+		caller := st.top()
+		retTo, _ := caller.Block.Instrs[caller.PC].(ssa.Value)
+		if err := r.pushCall(st, fv.Fn, []Value{j}, fv.Bind, retTo); err != nil {
+			return nil, true, err
+		}
+		return nil, true, errUnwound
+	case "verifObjID":
+		if ifc, ok := a[0].(Iface); ok {
+			if p, ok := ifc.V.(Ptr); ok {
+				return []Value{smt.BV(uint64(p.ID), 64)}, true, nil
+			}
+		}
+		if p, ok := a[0].(Ptr); ok {
+			return []Value{smt.BV(uint64(p.ID), 64)}, true, nil
+		}
+		return nil, true, unknownf("verifObjID on %T", a[0])
+	case "verifScribblePool":
+		return nil, true, nil
+	case "verifRopeNew":
+		n := uint64(0)
+		if v, ok := st.Ghost["ropen"]; ok {
+			n = v.(*smt.Term).C
+		}
+		n++
+		st.Ghost["ropen"] = smt.BV(n, 64)
+		st.setRope(n, ropeVal{})
+		return []Value{smt.BV(n, 64)}, true, nil
+	case "verifRopeAppend", "verifRopeAppendByte", "verifRopeTrunc", "verifRopeInsert", "verifRopeMove", "verifRopeLen", "verifRopeMatch", "verifRopeByte":
+		idT, err := termArg(a[0])
+		if err != nil || !idT.IsConst() {
+			return nil, true, unknownf("rope id must be concrete")
+		}
+		rp, ok := st.rope(idT.C)
+		if !ok {
+			return nil, true, unknownf("unknown rope")
+		}
+		switch name {
+		case "verifRopeAppend":
+			_, off, ln, c, ok := r.bytesOf(st, a[1])
+			if !ok {
+				return nil, true, unknownf("verifRopeAppend on %T", a[1])
+			}
+			np := append(append([]ropePiece(nil), rp.p...), ropePiece{c: c, off: off, n: ln})
+			st.setRope(idT.C, ropeVal{p: np})
+			return nil, true, nil
+		case "verifRopeAppendByte":
+			c, err := termArg(a[1])
+			if err != nil {
+				return nil, true, err
+			}
+			np := append(append([]ropePiece(nil), rp.p...), ropePiece{c: (&ByteFn{kind: bkZero}).write(zero64, c), off: zero64, n: smt.BV(1, 64)})
+			st.setRope(idT.C, ropeVal{p: np})
+			return nil, true, nil
+		case "verifRopeTrunc":
+			n, err := termArg(a[1])
+			if err != nil {
+				return nil, true, err
+			}
+			var np []ropePiece
+			pre := zero64
+			for _, pc := range rp.p {
+				// keep = clamp(n - pre, 0, pc.n)
+				rem := smt.Sub(n, pre)
+				keep := smt.Ite(smt.SLe(rem, zero64), zero64, smt.Ite(smt.SLt(pc.n, rem), pc.n, rem))
+				np = append(np, ropePiece{c: pc.c, off: pc.off, n: keep})
+				pre = smt.Add(pre, pc.n)
+			}
+			st.setRope(idT.C, ropeVal{p: np})
+			return nil, true, nil
+		case "verifRopeInsert":
+			cut, err := termArg(a[1])
+			if err != nil {
+				return nil, true, err
+			}
+			_, off, ln, c, ok := r.bytesOf(st, a[2])
+			if !ok {
+				return nil, true, unknownf("verifRopeInsert on %T", a[2])
+			}
+			var heads, tails []ropePiece
+			pre := zero64
+			for _, pc := range rp.p {
+				rem := smt.Sub(cut, pre)
+				hd := smt.Ite(smt.SLe(rem, zero64), zero64, smt.Ite(smt.SLt(pc.n, rem), pc.n, rem))
+				heads = append(heads, ropePiece{c: pc.c, off: pc.off, n: hd})
+				tails = append(tails, ropePiece{c: pc.c, off: smt.Add(pc.off, hd), n: smt.Sub(pc.n, hd)})
+				pre = smt.Add(pre, pc.n)
+			}
+			np := append(heads, ropePiece{c: c, off: off, n: ln})
+			np = append(np, tails...)
+			st.setRope(idT.C, ropeVal{p: np})
+			return nil, true, nil
+		case "verifRopeMove":
+			srcT, err := termArg(a[1])
+			if err != nil || !srcT.IsConst() {
+				return nil, true, unknownf("rope id must be concrete")
+			}
+			src, ok := st.rope(srcT.C)
+			if !ok {
+				return nil, true, unknownf("unknown rope")
+			}
+			np := append(append([]ropePiece(nil), rp.p...), src.p...)
+			st.setRope(idT.C, ropeVal{p: np})
+			st.setRope(srcT.C, ropeVal{})
+			return nil, true, nil
+		case "verifRopeLen":
+			return []Value{r.ropeLen(rp)}, true, nil
+		case "verifRopeMatch":
+			pos, err := termArg(a[1])
+			if err != nil {
+				return nil, true, err
+			}
+			_, off, ln, c, ok := r.bytesOf(st, a[2])
+			if !ok {
+				return nil, true, unknownf("verifRopeMatch on %T", a[2])
+			}
+			return []Value{r.ropeMatch(st, rp, pos, c, off, ln)}, true, nil
+		case "verifRopeByte":
+			pos, err := termArg(a[1])
+			if err != nil {
+				return nil, true, err
+			}
+			return []Value{r.ropeByte(rp, pos)}, true, nil
+		}
+		return nil, true, unknownf("rope op")
 	case "verifIsConcrete":
 		t, err := termArg(a[0])
 		if err != nil {
@@ -518,6 +693,10 @@ type snapshot struct {
 }
 
 func (r *Run) assert(st *State, c *smt.Term, label string, pos token.Pos) {
+	// assertions labelled for another property are that property's business
+	if r.Prop != "" && len(label) > 4 && label[0] == 'C' && label[3] == '/' && label[:3] != r.Prop {
+		return
+	}
 	r.Obligations++
 	if c.IsTrue() {
 		r.Discharged++
